@@ -49,7 +49,7 @@ CHECKS = {
  "C15": ("savesim", "exploration", "deterministic simulation with stream faults: seeded mark/delete/maintain/allocator-maintain/serialise/deserialise histories over two worlds; the byte stream is owned by the simulator (truncation, byte corruption, failing writer); before/after observation oracle with independently parsed data",
          "After every step live marker ids are unique; marking a marked entity returns its marker; a successful load updates existing carriers in place, creates entities only for unknown ids, sets/removes component types as the data says, resolves references by marker, leaves everything else untouched.",
          "SimpleMarker only; the stale allocator mapping is the deferred state that makes this a simulation target", "DESIGN.md 3/E4, 4/C15"),
- "C20": ("twin", "exploration", "deterministic simulation turned on itself: per-seed transcript (handles, results, join orders, event streams, serialised bytes) computed twice in one process with heap/hasher perturbation in between and again in a different batch of worker processes; all hashes must agree",
+ "C20": ("twin", "exploration", "deterministic simulation turned on itself: per-seed transcript (handles, results, join orders, event streams, serialised bytes) computed twice in one process with heap/hasher perturbation in between (the second time under a simulated clock: clock_gettime is answered by the harness with seeded forward jumps) and again in a different batch of worker processes; all hashes must agree",
          "Same-process twin worlds and cross-process re-execution (different hash seeds, address layout, worker count) produce identical transcripts for every seed.",
          "ahash's per-process keys have no seam and are varied by re-executing in other processes; destructor order in hash-map storages is not an observable the property lists; a third part runs the twin comparison over fault-injected histories (state leaking from one world to the next after a caught panic), a fourth over histories with thousands of live entities and thousand-handle batches (hidden intra-call parallelism); a C20 replay re-executes the seed several times in this and in fresh processes", "DESIGN.md 4/C20, 13"),
 }
@@ -96,14 +96,14 @@ def main():
         "engines": [
             {"name": "mirisim", "path": "/verif/miri/src/main.rs", "serves_properties": ["C08", "C10", "C19"], "kind_free_text": "thorough tier only: scenarios with heap-owning values and real threads under Miri's seeded scheduler (hook-free second simulator)"},
             {"name": "savesim", "path": "/verif/dst/src/savesim.rs", "serves_properties": ["C15"], "kind_free_text": "marker/save-load histories over two worlds with stream faults"},
-            {"name": "twin", "path": "/verif/dst/src/twin.rs", "serves_properties": ["C20"], "kind_free_text": "twin-run and cross-process transcript comparison"},
+            {"name": "twin", "path": "/verif/dst/src/twin.rs", "serves_properties": ["C20"], "kind_free_text": "twin-run (second run under a simulated, jumping clock) and cross-process transcript comparison"},
             {"name": "joinsim", "path": "/verif/dst/src/joinsim.rs", "serves_properties": ["C07", "C13"], "kind_free_text": "parallel joins under a simulated work-stealing bridge (seeded split tree + baton tasks) and under rayon's real bridge on a virtual pool"},
             {"name": "dispatchsim", "path": "/verif/dst/src/dispatchsim.rs", "serves_properties": ["C11"], "kind_free_text": "system graphs: declaration-vs-borrow, shred's plan on the baton executor, adversarial executor"},
             {"name": "worldsim", "path": "/verif/dst/src/wexec.rs", "serves_properties": [p for p,(e,*_) in CHECKS.items() if e == "worldsim"], "kind_free_text": "frame-loop simulator: real specs::World vs reference model, baton-scheduled parallel phases, destructor-fault injection, crash = world dropped mid-frame"},
         ],
         "checks": checks,
         "not_applicable": na,
-        "notes": "Technique family: deterministic simulation with fault injection. See DESIGN.md (sections 13-15: as built, sensitivity incl. 66 independently written changes under /verif/seeded, alarm triage). Genuine defect repaired: see known_findings.txt. Thorough tier: 4-15 min per property on 16 cores (Miri scenarios for C08/C10/C19 included); workers are recycled every 2000 runs.",
+        "notes": "Technique family: deterministic simulation with fault injection. See DESIGN.md (sections 13-15: as built, sensitivity incl. 82 independently written changes under /verif/seeded, alarm triage). Genuine defect repaired: see known_findings.txt. Thorough tier: 4-15 min per property on 16 cores (Miri scenarios for C08/C10/C19 included); workers are recycled every 2000 runs.",
     }
     json.dump(m, open("/verif/MANIFEST.json", "w"), indent=1)
     print("checks:", [c["property_id"] for c in checks], "n/a:", [n["property_id"] for n in na])
